@@ -296,7 +296,7 @@ class Scenario:
         targets = []
         for i, tg in enumerate(j["targets"]):
             tt = SimTarget(deployment=self.cfgs[tg["dep"]], locations=tg["locations"], workdir=self.workdir(tg["dep"]))
-            tt._sim_hash = 1000 + (self.sim.tape.draw(64, "target.hash") * 8 + i)
+            tt._sim_hash = 64 + ((i * 3 + self.sim.tape.draw(8, "target.hash")) % 8)
             targets.append(tt)
         return BindingConfig(targets=targets, filters=self.filters or [])
 
